@@ -161,25 +161,56 @@ func (w *World) findFunc(pkgPath, rel string) *ssa.Function {
 
 var allFuncsCache map[string]*ssa.Function
 
+var indexedPkgs = map[string]bool{}
+
+// funcIndex indexes (by funcKey) every function, method and closure of the packages
+// that have been built so far.
 func (w *World) funcIndex() map[string]*ssa.Function {
-	if allFuncsCache != nil {
-		return allFuncsCache
+	if allFuncsCache == nil {
+		allFuncsCache = map[string]*ssa.Function{}
 	}
-	allFuncsCache = map[string]*ssa.Function{}
-	for fn := range ssautil.AllFunctions(w.prog) {
-		if fn.Pkg == nil {
-			// closures/bound wrappers: use parent pkg
-			p := fn
-			for p.Parent() != nil {
-				p = p.Parent()
-			}
-			if p.Pkg == nil {
-				continue
-			}
-			allFuncsCache[p.Pkg.Pkg.Path()+"."+fn.RelString(p.Pkg.Pkg)] = fn
+	for path, p := range w.pkgs {
+		if indexedPkgs[path] || p == nil {
 			continue
 		}
-		allFuncsCache[fn.Pkg.Pkg.Path()+"."+fn.RelString(fn.Pkg.Pkg)] = fn
+		// only packages that were built have bodies (and closures)
+		built := false
+		for _, m := range p.Members {
+			if f, ok := m.(*ssa.Function); ok && len(f.Blocks) > 0 {
+				built = true
+				break
+			}
+		}
+		if !built {
+			continue
+		}
+		indexedPkgs[path] = true
+		var add func(fn *ssa.Function)
+		add = func(fn *ssa.Function) {
+			if fn == nil {
+				return
+			}
+			allFuncsCache[funcKey(fn)] = fn
+			for _, a := range fn.AnonFuncs {
+				add(a)
+			}
+		}
+		for _, m := range p.Members {
+			switch x := m.(type) {
+			case *ssa.Function:
+				add(x)
+			case *ssa.Type:
+				for _, T := range []types.Type{x.Type(), types.NewPointer(x.Type())} {
+					ms := w.prog.MethodSets.MethodSet(T)
+					for i := 0; i < ms.Len(); i++ {
+						f := w.prog.MethodValue(ms.At(i))
+						if f != nil && f.Pkg == p {
+							add(f)
+						}
+					}
+				}
+			}
+		}
 	}
 	return allFuncsCache
 }
